@@ -1,5 +1,6 @@
 import AkVerif.Model.Proto
 import AkVerif.Model.LLGrammar
+import AkVerif.Model.LLCtorN
 /-!
 Line-protocol handler shared by the drivers of C01, C02, C03 (`Drv/C0x.lean` = `runS handle none`).
 
@@ -20,8 +21,9 @@ use <k>                                                   -> ok          (make t
 pl <textcps> <raw>                                        -> as `p`; the real parser gets the text as a list of lines
 reset                                                     -> ok
 ```
-Optional extra fields of `g`: `T=<tmpl>/<gen>/<seq>` (comma lists or `-`): keys given as a template, symbols the
-templates generated, `ProdSequence` symbols (their nodes are shown flattened: `[S item item …]`);
+Optional extra fields of `g`: `T=<tmpl>/<gen>/<seq>[/<nonull>]` (comma lists or `-`): keys given as a template, symbols the
+templates generated, `ProdSequence` symbols (their nodes are shown flattened: `[S item item …]`), item symbols of the
+`ListProds` templates without a delimiter (`verify_grammar`: such an item must not be nullable, `constructGN`);
 `K=…` (argument kinds for the real constructor, ignored here).  Every `g` adds a parser object; the earlier
 ones stay alive and unchanged (`use`).
 -/
@@ -140,8 +142,18 @@ def parseTmpl (extras : List String) : Tmpl × List (List Char) :=
   | some e =>
     match (e.drop 2).toString.splitOn "/" with
     | [a, b, c] => (⟨parseList a, parseList b⟩, parseList c)
+    | [a, b, c, _] => (⟨parseList a, parseList b⟩, parseList c)
     | _ => (Tmpl.none, [])
   | none => (Tmpl.none, [])
+
+/-- 4th part of `T=`: the item symbols of the delimiter-less `ListProds` templates -/
+def nonullOf (args : List String) : List (List Char) :=
+  match args.find? (fun e => e.startsWith "T=") with
+  | some e =>
+    match (e.drop 2).toString.splitOn "/" with
+    | [_, _, _, d] => parseList d
+    | _ => []
+  | none => []
 
 /-- the arguments of a `g` request -/
 def decodeG (args : List String) : Option (Tmpl × List (List Char) × CtorIn) :=
@@ -169,7 +181,7 @@ def addResult (st : DState) (seqs : List (List Char)) : Except Err Parser → DS
 
 def handleG (st : DState) (args : List String) : DState × String :=
   match decodeG args with
-  | some (T, seqs, inp) => addResult st seqs (constructG T inp)
+  | some (T, seqs, inp) => addResult st seqs (constructGN (nonullOf args) T inp)
   | none => ({ st with cur := st.slots.length }, "bad-op")
 
 def parseReply (seqs : List (List Char)) : Except Err (Tree Sym) → String
